@@ -94,6 +94,8 @@ type TestSpec struct {
 	OptMsg  *string
 	OptCode *string
 	OptPath *string
+	OptMsgFunc bool        // the message is given through MessageFunc instead of Message
+	OptParams  [][2]string // Params(...): replaces the parameters of the test (sorted by key)
 }
 
 // PTSpec is a PostTransform from the DSL.
